@@ -158,6 +158,16 @@ def stateless (w : List String) : Option String :=
     match pickFallback rcs nc fts with
     | .resp rc => some s!"resp:{rc}"
     | .error e => some s!"err:{boolStr e.fatal}:{causeStr e.cause}"
+  | ["fail", "nss", outs] => do
+    let os ← (parseCsv outs).mapM fun o =>
+      if o == "a" then some NSAddr.found
+      else if o == "f" || o == "e" then some (NSAddr.failed .other)
+      else if o.startsWith "l:" || o.startsWith "x:" then (parseCause (o.drop 2).toString).map NSAddr.failed
+      else none
+    match lookupV4Nss os false none with
+    | .servers => some "servers"
+    | .noServers => some "noservers"
+    | .error c => some ("err:" ++ causeStr c)
   | "fail" :: "l3zone" :: _ => some "unmodelled"
   | "fail" :: "l3shed" :: _ => some "unmodelled"
   | ["fail", "response", kind, rd, cd, udp, dobit, codes] => do
